@@ -39,7 +39,7 @@ D = {  # id: (caught_by, first_run, strengthening)
  "C02_1": (["C01", "C14 (broken tie)", "C02"], "missed by C02", "vlib/props/c02.py: generator family of shared-prefix alternatives of different lengths followed by a jump"),
  "C02_2": (["C02"], "caught", None),
  "C03_1": (["C03"], "caught", None),
- "C03_2": ([], "missed", "pending: regexes with NUL-interleaved literals under `ascii wide` (one literal equal to the widened form of another)"),
+ "C03_2": (["C03"], "missed", "vlib/props/c03.py: generator families `ascii wide` where a branch is the widened form of another (with / without nocase); corpus/C03/ascii_wide_nul_branch.json"),
  "C04_3": (["C06", "C04"], "missed by C04 (caught by C06)", "vlib/props/c04.py: every case is also scanned with the default parameters (first evaluation pass allowed) and the verdict must be the same; sibling-loop family"),
  "C04_4": (["C04", "C06"], "caught", None),
  "C05_3": (["C05"], "caught", None),
@@ -51,7 +51,7 @@ D = {  # id: (caught_by, first_run, strengthening)
  "C19_3": (["C19"], "broken tie only (no failing input)", "Model/ProcessCase.v: a failed fetch is accepted by the specification only where nothing is readable; victim maps files at non-zero offsets"),
  "C19_4": (["C19"], "caught", None),
  "C10_3": (["C10"], "caught", None),
- "C10_4": (["C10 (broken tie, no failing input)"], "broken tie only", "pending with its owner: user module replacing a built-in one by name on reload (notes/C10.md)"),
+ "C10_4": (["C10"], "broken tie only (no failing input)", "harness/src/bin/c10.rs: user modules replacing built-in ones by name given at compile time and on reload, probe rules; Model/WireCase.v module-table model with two theorems; corpus witness"),
  "C13_3": ([], "missed", "pending with its owner: history-dependent sequences with cache-thrashing regexes compared with a fresh scanner (notes/C13.md)"),
  "C13_4": ([], "missed", "pending with its owner: sequences mixing inputs decided before the string scan and inputs needing it, full results compared with a fresh scanner (notes/C13.md)"),
  "C07_1": (["C07"], "caught at one seed in three", "vlib/props/c07.py: generator atom `for K of (set) : (<N of (set2)> and/or <anonymous reference>)`; corpus replay"),
